@@ -21,6 +21,7 @@ import (
 
 type plonkShape struct {
 	NumChallenges, NumRoutedWires, NumWires, QDF, DegreeBits, NumConstants int
+	MaxQDF                                                                 int
 	GateIDs                                                                []string
 	SelIdx                                                                 []int
 	Groups                                                                 []ref.Group
@@ -40,6 +41,7 @@ func (s plonkShape) common() types.CommonCircuitData {
 	cd.DegreeBits = uint64(s.DegreeBits)
 	cd.FriParams.DegreeBits = uint64(s.DegreeBits)
 	cd.QuotientDegreeFactor = uint64(s.QDF)
+	cd.Config.MaxQuotientDegreeFactor = uint64(s.MaxQDF)
 	cd.NumPartialProducts = uint64(s.numPartialProducts())
 	cd.NumConstants = uint64(s.NumConstants)
 	cd.NumGateConstraints = uint64(s.NumGateConstraints)
@@ -59,7 +61,7 @@ func (s plonkShape) common() types.CommonCircuitData {
 
 func realShape() plonkShape {
 	c := ref.ReadCommon(getInst("A_testdata").Files.Common)
-	return plonkShape{c.NumChallenges, c.NumRoutedWires, c.NumWires, c.QuotientDegreeFactor, c.DegreeBits, c.NumConstants, c.GateIDs, c.SelectorIndices, c.Groups, c.KIs, c.NumGateConstraints}
+	return plonkShape{NumChallenges: c.NumChallenges, NumRoutedWires: c.NumRoutedWires, NumWires: c.NumWires, QDF: c.QuotientDegreeFactor, DegreeBits: c.DegreeBits, NumConstants: c.NumConstants, MaxQDF: 8, GateIDs: c.GateIDs, SelIdx: c.SelectorIndices, Groups: c.Groups, KIs: c.KIs, NumGateConstraints: c.NumGateConstraints}
 }
 
 func synthShape(r *rand.Rand, routed, qdf, nch int) plonkShape {
@@ -68,6 +70,7 @@ func synthShape(r *rand.Rand, routed, qdf, nch int) plonkShape {
 		ids = append(ids, gateID("MulExtension", 2))
 	}
 	s := plonkShape{NumChallenges: nch, NumRoutedWires: routed, QDF: qdf, DegreeBits: 3 + r.Intn(10), GateIDs: ids}
+	s.MaxQDF = qdf + r.Intn(9-qdf+1) // max_quotient_degree_factor >= quotient_degree_factor
 	s.NumWires = routed + 20
 	if s.NumWires < 30 {
 		s.NumWires = 30
@@ -215,6 +218,13 @@ func init() {
 				for i := 0; i < nr; i++ {
 					cs = append(cs, fw.Case{ID: fmt.Sprintf("real/%d", i), Kind: "real", P: map[string]any{"i": i}})
 				}
+				nreuse := 12
+				if !ctx.Quick {
+					nreuse = 150
+				}
+				for i := 0; i < nreuse; i++ {
+					cs = append(cs, fw.Case{ID: fmt.Sprintf("reuse/%d", i), Kind: "reuse", P: map[string]any{"i": i}})
+				}
 				for nch := 1; nch <= 3; nch++ {
 					for qdf := 1; qdf <= 8; qdf++ {
 						routeds := []int{2, 3, 7, 8, 16, 24, 80}
@@ -239,6 +249,9 @@ func init() {
 			Exec: func(ctx *fw.Ctx, c fw.Case) fw.Outcome {
 				var o fw.Outcome
 				r := ctx.Rand(c.ID)
+				if c.Kind == "reuse" {
+					return c16Reuse(ctx, c)
+				}
 				var s plonkShape
 				if c.Kind == "real" {
 					s = realShape()
@@ -318,4 +331,62 @@ func init() {
 			},
 		}
 	})
+}
+
+// c16Reuse: one PlonkChip verifies several instances in sequence inside one circuit (a
+// VerifierChip builds its PlonkChip once); each valid instance must be accepted and a broken
+// one rejected, whatever was verified before.
+func c16Reuse(ctx *fw.Ctx, c fw.Case) fw.Outcome {
+	var o fw.Outcome
+	r := ctx.Rand(c.ID)
+	s := synthShape(r, 2+r.Intn(30), 1+r.Intn(8), 1+r.Intn(3))
+	if c.Int("i")%4 == 0 {
+		s = realShape()
+	}
+	n := 2 + r.Intn(2)
+	var insts []*plonkInstance
+	for len(insts) < n {
+		pi, _, ok := solveInstance(r, s)
+		if ok {
+			insts = append(insts, pi)
+		}
+	}
+	brokenAt := -1
+	if c.Int("i")%2 == 1 {
+		brokenAt = 1 + r.Intn(n-1) // never the first: the break must be seen after a valid verification
+		q := insts[brokenAt]
+		k := r.Intn(len(q.Open.PlonkSigmas))
+		q.Open.PlonkSigmas[k][r.Intn(2)] = ref.Add(q.Open.PlonkSigmas[k][0], 1+uint64(r.Intn(9)))
+		rv, zpn, _ := refVanishing(s, q)
+		if ref.PlonkCheck(ref.PlonkShape{NumChallenges: s.NumChallenges, QuotientDegreeFactor: s.QDF}, rv, zpn, q.Open.QuotientPolys) {
+			return fw.Outcome{Trivial: true}
+		}
+	}
+	res := harnRunOpt(engine.Options{Face: engine.Native}, func(api frontend.API) error {
+		chip := plonk.NewPlonkChip(api, s.common())
+		for _, pi := range insts {
+			oset := variables.OpeningSet{Constants: qes(pi.Open.Constants), PlonkSigmas: qes(pi.Open.PlonkSigmas), Wires: qes(pi.Open.Wires), PlonkZs: qes(pi.Open.PlonkZs), PlonkZsNext: qes(pi.Open.PlonkZsNext), PartialProducts: qes(pi.Open.PartialProducts), QuotientPolys: qes(pi.Open.QuotientPolys)}
+			ch := variables.ProofChallenges{PlonkBetas: gls(pi.Betas), PlonkGammas: gls(pi.Gammas), PlonkAlphas: gls(pi.Alphas), PlonkZeta: qeConst(pi.Zeta)}
+			h := poseidon.GoldilocksHashOut{gl.NewVariable(pi.PIH[0]), gl.NewVariable(pi.PIH[1]), gl.NewVariable(pi.PIH[2]), gl.NewVariable(pi.PIH[3])}
+			chip.Verify(ch, oset, h)
+		}
+		return nil
+	})
+	o.Events += events(res)
+	if io, bad := inconclusiveIf(res); bad {
+		return io
+	}
+	if brokenAt < 0 && res.Verdict != engine.Accept {
+		return fw.Violate("chip_reuse_rejects_valid_identity", fmt.Sprintf("case %s: %d valid instances verified by one PlonkChip: %s %s", c.ID, n, resStr(res), res.Msg))
+	}
+	if brokenAt >= 0 && res.Verdict == engine.Accept {
+		return fw.Violate("chip_reuse_accepts_broken_identity", fmt.Sprintf("case %s: instance #%d of %d verified by one PlonkChip was broken and still accepted", c.ID, brokenAt, n))
+	}
+	if brokenAt < 0 {
+		o.Inc("reuse_sequences_accepted")
+	} else {
+		o.Inc("reuse_sequences_rejected")
+	}
+	o.Sample = map[string]any{"instances_on_one_chip": n, "broken_at": brokenAt, "routed": s.NumRoutedWires, "factor": s.QDF}
+	return o
 }
